@@ -32,4 +32,9 @@ def run(run_, pkg, tier):
         key = "C06-ce/assembly-sequence/%s->%s" % (first.name, second.name)
         if run_.wants(key):
             tasks.append((key, "C06-ce-reduced-system-history-independent", sequence_obligation(first, second), "%s:%d" % (fn._gs_module, fn.lineno)))
-    record(run_, tasks, run_tasks(pkg, tasks))
+    results = run_tasks(pkg, tasks)
+    from ..algebra import across_thresholds
+    from ..assembly import directed_assembly_tasks
+    results, xt, xr = across_thresholds(run_, pkg, tasks, results, directed_assembly_tasks("C06-ce/assembly", "C06-ce-reduced-system", "%s:%d" % (fn._gs_module, fn.lineno)))
+    record(run_, tasks, results)
+    record(run_, xt, xr)
